@@ -19,7 +19,10 @@ class Ctx:
         self.prop, self.tier, self.seed = prop, tier, seed
         self.t0 = time.time()
         self.scratch = tempfile.mkdtemp(prefix="hpo-verif.")
-        os.environ["HV_SCRATCH"] = os.path.join(self.scratch, "hv")
+        # JAX file sets are written and removed ~10^5 times per run: keep them on tmpfs when there is one
+        shm = "/dev/shm" if os.path.isdir("/dev/shm") and os.access("/dev/shm", os.W_OK) else None
+        self.shm = tempfile.mkdtemp(prefix="hpo-verif.", dir=shm) if shm else None
+        os.environ["HV_SCRATCH"] = os.path.join(self.shm or self.scratch, "hv")
         self.tlc_runs = []
         self.hv_runs = []
         self.violations = []       # dicts {property, what, replay}
@@ -40,6 +43,8 @@ class Ctx:
 
     def cleanup(self):
         shutil.rmtree(self.scratch, ignore_errors=True)
+        if self.shm:
+            shutil.rmtree(self.shm, ignore_errors=True)
 
 
 def log(*a):
@@ -92,6 +97,9 @@ def tlc(ctx, cfg, module, workers=12, timeout=900, simulate=None, depth=None, en
             m = re.match(r"(\d+) states generated, (\d+) distinct states found", line)
             if m:
                 generated, distinct = int(m.group(1)), int(m.group(2))
+            m = re.match(r"The number of states generated: (\d+)", line)
+            if m:
+                generated = distinct = int(m.group(1))
             m = re.match(r"The depth of the complete state graph search is (\d+)", line)
             if m:
                 depth_found = int(m.group(1))
@@ -259,7 +267,51 @@ def check_C01(ctx):
     return finish(ctx)
 
 
-CHECKS = {"C01": check_C01}
+def sim_full(ctx, num, workers, depth=45):
+    return tlc(ctx, "mc/Sim_Full.cfg", "mc/MC_Full.tla", workers=workers, simulate=num, depth=depth, count=True)
+
+
+def check_C02(ctx):
+    ctx.rule = ("design level: TLC explores the step-level link machine (early exit, recursion over all ancestors, binary loader's "
+                "link-before-insert order) on every DAG over Ids from every reachable annotation state with every next fact; "
+                "binding: every call sequence of <= MaxFacts annotate/add calls (3 kinds sharing numeric ids) on every DAG is replayed "
+                "through Builder (3 edge orders), build_with_defaults, as_bytes round trip, binary v1-v3 (+permuted records) and both JAX loaders; "
+                "plus TLC-simulated full pipelines on 8 ids; non-trivial = at least one fact; distinct = distinct TLC states (histories)")
+    if ctx.quick:
+        tlc(ctx, "mc/MC_Annot3q.cfg", "mc/MC_Annot.tla")
+    else:
+        tlc(ctx, "mc/MC_Annot3.cfg", "mc/MC_Annot.tla", workers=14, timeout=1800)
+        tlc(ctx, "mc/MC_Annot4.cfg", "mc/MC_Annot.tla", workers=14, timeout=1800)
+    tlc(ctx, "mc/MC_AnnotLive.cfg", "mc/MC_Annot.tla", workers=4)
+    outs = [tlc(ctx, "mc/MC_AnnotHist3.cfg", "mc/MC_AnnotHist.tla")["out"]]
+    if not ctx.quick:
+        outs.append(tlc(ctx, "mc/MC_AnnotHist4.cfg", "mc/MC_AnnotHist.tla", workers=14, timeout=1800)["out"])
+    outs.append(sim_full(ctx, 60 if ctx.quick else 1500, 4 if ctx.quick else 8)["out"])
+    allout = concat(ctx, outs, "c02-lines.txt")
+    s = hv(ctx, "replay-core", prop="C02", **{"in": allout}, jax_every=(4 if ctx.quick else 1), concs="dense,roots0_1,random")
+    ctx.traces += s.get("cases", 0)
+    ctx.assumptions += ["kinds are independent instances of one machine in the spec; leaks between kinds are detected at the binding level (ids shared across kinds)",
+                        "exhaustive within 3-4 term ids and <=3 facts; simulation beyond"]
+    return finish(ctx)
+
+
+def check_C03(ctx):
+    ctx.rule = ("the spec fixes the exact integer arguments (n, N) of -ln(n/N) per term and kind (ICArgsExact, ICMonotone checked by TLC); "
+                "record universes differ per kind (3 genes, 2 OMIM, 1 ORPHA) and include records without terms, N=0, n=0, n=N; the harness "
+                "evaluates -ln(n/N) in f64 and compares with information_content() through every construction path; "
+                "non-trivial = at least one fact")
+    tlc(ctx, "mc/MC_CoreIC.cfg", "mc/MC_CoreIC.tla")
+    outs = [tlc(ctx, "mc/MC_AnnotHistIC.cfg" if ctx.quick else "mc/MC_AnnotHistIC3.cfg", "mc/MC_AnnotHist.tla", workers=14, timeout=1800)["out"]]
+    outs.append(sim_full(ctx, 60 if ctx.quick else 1500, 4 if ctx.quick else 8)["out"])
+    allout = concat(ctx, outs, "c03-lines.txt")
+    s = hv(ctx, "replay-core", prop="C03", **{"in": allout}, jax_every=(4 if ctx.quick else 1), concs="dense,roots0_1,random")
+    ctx.traces += s.get("cases", 0)
+    ctx.assumptions += ["ln and f32 rounding are evaluated outside TLC (relative tolerance 1e-5); the spec decides the integer arguments",
+                        "more than 65535 records of one kind are outside the crate's own contract (u16 conversion error)"]
+    return finish(ctx)
+
+
+CHECKS = {"C01": check_C01, "C02": check_C02, "C03": check_C03}
 
 
 def run_check(prop, tier, seed):
